@@ -3,3 +3,11 @@ package main
 // rules shared by several properties; filled in below
 func ruleCoinHoursArith(r *Run, rule string)    { arithObligations(r, rule, "coin.UxOut.CoinHours") }
 func ruleTxErrorDiscipline(r *Run, rule string) { txErrorDiscipline(r, rule) }
+
+// ruleNullPredicates: the zero-value predicates the rule sets lean on ("null signature", "null hash",
+// "null address") are exact comparisons of the whole value with the zero value.
+func ruleNullPredicates(r *Run, rule string, fns ...string) {
+	for _, f := range fns {
+		r.ReturnShape(rule, f, 0, ShapeCase{"", "($0 == zero)"})
+	}
+}
